@@ -16,9 +16,9 @@
    So a rename, an extracted helper, a reordered condition or another loop form leaves the tie
    intact, while a change of the computed function (another literal, another order of effects, a
    dropped reservation) breaks it.                                                            *)
-From Coq Require Import List Bool String NArith Arith.
+From Coq Require Import List Bool String NArith Arith Lia.
 Import ListNotations.
-From GT Require Import IFaceModel IFaceGenPrims.
+From GT Require Import IFaceModel IFaceNamesProofs IFaceRefProofs IFaceAliasProofs IFaceGenPrims.
 From GTgen Require Import ParamsGen.
 Local Open Scope string_scope.
 
@@ -243,7 +243,724 @@ Proof.
   intros priv m H. unfold gen_visible, visible. rewrite H. destruct priv; destruct (exported (m_name m)); reflexivity.
 Qed.
 
+(* ================================================================== imports.go (world.go of the translator) *)
+Ltac unfold_world :=
+  unfold tmap_get, tmap_has, amap_get, amap_has, is_some, opt_get, is_nil, pkg_path, pkg_name,
+         imp_with_in_use, imp_with_alias, imp_with_is_pkg, imp_with_path, types_default_string, imp_zero in *.
+
+Lemma tmap_set_tset : forall t v, tmap_set t (i_path v) v = tset t v.
+Proof. induction t as [|j r IH]; intros v; simpl; [reflexivity|]. rewrite IH. reflexivity. Qed.
+
+Lemma tmap_set_tset_key t k v : i_path v = k -> tmap_set t k v = tset t v.
+Proof. intros <-. apply tmap_set_tset. Qed.
+
+(* ------------------------------------------------------------------ calcImports *)
+Lemma tie_calcImports_step : forall e t sh p n,
+  gen_calcImports_step (e_pkg_imports e) (e_self e) (e_locals e) t sh p n = calc_step e (t, sh) (p, n).
+Proof.
+  intros e t sh p n. unfold gen_calcImports_step, calc_step, calc_import. unfold_gen_helpers. unfold_world.
+  cbv zeta. cbn [fst snd].
+  destruct n as [n|]; [|destruct (assoc (e_pkg_imports e) p) as [n0|]]; cbn [i_path];
+    destruct (tget t p); rewrite tmap_set_tset_key by reflexivity; reflexivity.
+Qed.
+
+Theorem tie_calcImports : forall e specs,
+  fold_left (fun st s => gen_calcImports_step (e_pkg_imports e) (e_self e) (e_locals e) (fst st) (snd st) (fst s) (snd s)) specs ([], [])
+  = calc_imports_sh e specs.
+Proof.
+  intros e specs. unfold calc_imports_sh. generalize (@nil imp, @nil imp).
+  induction specs as [|[p n] r IH]; intros st; cbn [fold_left]; [reflexivity|].
+  cbn [fst snd]. rewrite tie_calcImports_step. destruct st as [t sh]. apply IH.
+Qed.
+
+(* ------------------------------------------------------------------ unusedName *)
+Lemma existsb_alias_mem (l : list imp) c :
+  existsb (fun i => String.eqb (i_alias i) c) l = mem c (map i_alias l).
+Proof.
+  unfold mem. induction l as [|x r IH]; simpl; [reflexivity|]. rewrite IH, String.eqb_sym. reflexivity.
+Qed.
+
+Lemma mem_app_b c a b : mem c (a ++ b) = mem c a || mem c b.
+Proof. unfold mem. apply existsb_app. Qed.
+
+Lemma dmem_const taken k : dmem (map (fun a : string => (a, 0%N)) taken) k = mem k taken.
+Proof.
+  unfold dmem, mem. induction taken as [|x r IH]; simpl; [reflexivity|].
+  destruct (String.eqb k x); [reflexivity|]. exact IH.
+Qed.
+
+Definition absu_ns (s : N * string) := s.
+Definition absu_sn (s : string * N) := let '(r, n) := s in (n, r).
+Definition unabsu_ns (s : N * string) := s.
+Definition unabsu_sn (s : N * string) := let '(n, r) := s in (r, n).
+Ltac absu_red := cbv beta iota zeta delta [absu_ns absu_sn unabsu_ns unabsu_sn fst snd].
+
+(* `for n := 2; bound(result); n++ { result = name + Itoa(n) }` over a state holding the counter and
+   the candidate in some arrangement *)
+Lemma loop_unused_abs {St : Type} (abs : St -> N * string) (unabs : N * string -> St) taken name
+      (cond : St -> bool) (body : St -> St) :
+  (forall s, unabs (abs s) = s) ->
+  (forall s, cond s = mem (snd (abs s)) taken) ->
+  (forall s, abs (body s) = (N.succ (fst (abs s)), name ++ itoa (fst (abs s)))) ->
+  forall f s0,
+    while_loop (S f) cond body s0 =
+    unabs (if mem (snd (abs s0)) taken
+           then let '(r, v) := number_name f (map (fun a : string => (a, 0%N)) taken) name (fst (abs s0)) in (v, r)
+           else abs s0).
+Proof.
+  intros Hu Hc Hb.
+  assert (W : forall f n s, abs s = (N.succ n, name ++ itoa n) ->
+            abs (while_loop f cond body s) =
+            let '(r, v) := number_name f (map (fun a : string => (a, 0%N)) taken) name n in (v, r)).
+  { induction f as [|f IH]; intros n s Hs; cbn [while_loop number_name]; [exact Hs|].
+    rewrite Hc, Hs. cbn [snd]. rewrite dmem_const.
+    destruct (mem (name ++ itoa n) taken) eqn:E; [|exact Hs].
+    apply IH. rewrite Hb, Hs. reflexivity. }
+  intros f s0. cbn [while_loop]. rewrite Hc.
+  destruct (mem (snd (abs s0)) taken) eqn:E; [|symmetry; apply Hu].
+  rewrite <- (Hu (while_loop f cond body (body s0))).
+  rewrite (W f (fst (abs s0)) (body s0)) by (rewrite Hb; reflexivity). reflexivity.
+Qed.
+
+Ltac unused_side :=
+  intros; repeat match goal with s : (_ * _)%type |- _ => destruct s end; absu_red;
+  rewrite ?existsb_alias_mem, ?mem_app_b; try reflexivity;
+  repeat match goal with |- context [mem ?c ?l] => destruct (mem c l) end; reflexivity.
+
+Lemma tie_unusedName : forall st sh self pkgimps scope name,
+  gen_unusedName st sh self pkgimps scope name
+  = unused_name (map i_alias st ++ map i_alias sh ++ scope) name.
+Proof.
+  intros st sh self pkgimps scope name. unfold gen_unusedName, unused_name. unfold_gen_helpers. unfold fmt_int.
+  cbv zeta.
+  set (taken := (map i_alias st ++ map i_alias sh ++ scope)%list).
+  match goal with |- context [while_loop (S (S ?x))] =>
+    replace x with (List.length taken) by (unfold taken; rewrite !app_length, !map_length; lia) end.
+  first [ rewrite (loop_unused_abs absu_ns unabsu_ns taken name) by (unfold taken; unused_side)
+        | rewrite (loop_unused_abs absu_sn unabsu_sn taken name) by (unfold taken; unused_side) ];
+  absu_red; destruct (mem name taken); [destruct (number_name _ _ name 2) as [r v]|]; reflexivity.
+Qed.
+
+(* ------------------------------------------------------------------ addNamed *)
+Definition spec_extract (e : env) (st : table) (t : ty) : string * table :=
+  let '(x, st') := extract e st t in (print x, st').
+
+Definition qual_string (q : option string) : string :=
+  match q with Some a => if String.eqb a "." then "" else a ++ "." | None => "" end.
+
+Lemma append_nil_r : forall s : string, s ++ "" = s.
+Proof. induction s as [|c s IH]; simpl; [reflexivity|]. rewrite IH. reflexivity. Qed.
+
+(* the loop over the type arguments = extract_list, texts in order *)
+Lemma targs_fold e (rec : table -> ty -> string * table) (F : table * list string -> nat -> ty -> table * list string) :
+  forall targs,
+  (forall st x, In x targs -> rec st x = spec_extract e st x) ->
+  (forall st acc i x, In x targs -> F (st, acc) i x = let '(s, st') := rec st x in (st', acc ++ [s])%list) ->
+  forall st acc i,
+    list_fold_from F i targs (st, acc) =
+    let '(args, st') := extract_list e st targs in (st', (acc ++ map print args)%list).
+Proof.
+  induction targs as [|x r IH]; intros Hrec HF st acc i; cbn [list_fold_from extract_list].
+  - rewrite app_nil_r. reflexivity.
+  - rewrite HF by (left; reflexivity). rewrite Hrec by (left; reflexivity). unfold spec_extract.
+    destruct (extract e st x) as [rx s1]. rewrite IH.
+    + destruct (extract_list e s1 r) as [rr s2]. cbn [map]. rewrite <- app_assoc. reflexivity.
+    + intros st0 y Hy. apply Hrec. right. assumption.
+    + intros st0 acc0 i0 y Hy. apply HF. right. assumption.
+Qed.
+
+Lemma extract_list_length e : forall l st, List.length (fst (extract_list e st l)) = List.length l.
+Proof.
+  induction l as [|x r IH]; intros st; simpl; [reflexivity|].
+  destruct (extract e st x) as [rx s1]. specialize (IH s1). destruct (extract_list e s1 r). simpl in *. congruence.
+Qed.
+
+(* the same loop with the two components of its state the other way round *)
+Lemma targs_fold_sw e (rec : table -> ty -> string * table) (F : list string * table -> nat -> ty -> list string * table) :
+  forall targs,
+  (forall st x, In x targs -> rec st x = spec_extract e st x) ->
+  (forall st acc i x, In x targs -> F (acc, st) i x = let '(s, st') := rec st x in ((acc ++ [s])%list, st')) ->
+  forall st acc i,
+    list_fold_from F i targs (acc, st) =
+    let '(args, st') := extract_list e st targs in ((acc ++ map print args)%list, st').
+Proof.
+  induction targs as [|x r IH]; intros Hrec HF st acc i; cbn [list_fold_from extract_list].
+  - rewrite app_nil_r. reflexivity.
+  - rewrite HF by (left; reflexivity). rewrite Hrec by (left; reflexivity). unfold spec_extract.
+    destruct (extract e st x) as [rx s1]. rewrite IH.
+    + destruct (extract_list e s1 r) as [rr s2]. cbn [map]. rewrite <- app_assoc. reflexivity.
+    + intros st0 y Hy. apply Hrec. right. assumption.
+    + intros st0 acc0 i0 y Hy. apply HF. right. assumption.
+Qed.
+
+Ltac fold_side :=
+  let st0 := fresh "st" in let acc := fresh "acc" in let i := fresh "i" in let y := fresh "y" in let Hy := fresh "Hy" in
+  intros st0 acc i y Hy; cbv beta iota zeta;
+  match goal with |- context [?r st0 y] => destruct (r st0 y) end; reflexivity.
+
+(* what is left of addNamed once the import is settled: the type arguments and the text *)
+Ltac finish_targs e rec Hr tl :=
+  cbv beta iota; unfold is_nil;
+  let Et := fresh "Et" in
+  let x0 := fresh "x" in
+  let r0 := fresh "r" in
+  destruct tl as [|x0 r0] eqn:Et; cbn [negb];
+  [ cbn [extract_list print map]; unfold qual_string;
+    repeat match goal with Hd : String.eqb _ "." = _ |- _ => rewrite Hd end;
+    rewrite ?append_nil_r; repeat rewrite app_assoc_s; rewrite ?append_nil_r; reflexivity
+  | rewrite <- Et in *; unfold list_fold;
+    first [ rewrite (targs_fold e rec _ tl); [|exact Hr|fold_side]
+          | rewrite (targs_fold_sw e rec _ tl); [|exact Hr|fold_side] ];
+    match goal with |- context [extract_list e ?s1 tl] =>
+      let Hl := fresh "Hl" in
+      let args := fresh "args" in
+      let st2 := fresh "st2" in
+      pose proof (extract_list_length e tl s1) as Hl;
+      destruct (extract_list e s1 tl) as [args st2]; cbn [fst] in Hl; cbn [app print];
+      destruct args; [rewrite Et in Hl; discriminate|];
+      unfold qual_string;
+      repeat match goal with Hd : String.eqb _ "." = _ |- _ => rewrite Hd end;
+      repeat rewrite app_assoc_s; rewrite ?append_nil_r; reflexivity
+    end ].
+
+(* addNamed = add_named + extract_list + print, whatever helpers it is split into: every branch of
+   the import part is taken apart on both sides at once *)
+Lemma tie_addNamed : forall e (rec : table -> ty -> string * table) st sh pkg name targs,
+  e_unique_alias e = true -> map i_alias sh = e_shadowed e ->
+  (forall st x, In x targs -> rec st x = spec_extract e st x) ->
+  gen_addNamed rec st sh (e_self e) (e_pkg_imports e) (e_locals e) pkg name targs
+  = spec_extract e st (TNamed pkg name targs).
+Proof.
+  intros e rec st sh pkg name targs Hu Hsh Hrec.
+  unfold spec_extract. rewrite extract_named.
+  destruct (add_named e st pkg) as [q st1] eqn:Ea.
+  unfold add_named in Ea.
+  unfold gen_addNamed. unfold_gen_helpers. unfold_world. cbv zeta.
+  destruct pkg as [[p pn]|]; cbn [fst snd andb negb] in *.
+  2:{ injection Ea as <- <-. finish_targs e rec Hrec targs. }
+  destruct (String.eqb p (e_self e)); cbn [negb andb].
+  { injection Ea as <- <-. finish_targs e rec Hrec targs. }
+  destruct (tget st p) as [i|] eqn:Eg.
+  - injection Ea as <- <-. pose proof (tget_path _ _ _ Eg) as Hp. cbv beta iota. cbn [i_alias i_path].
+    rewrite !tmap_set_tset_key by (simpl; assumption). rewrite ?Hp.
+    destruct (String.eqb (i_alias i) ".") eqn:Ed; cbn [negb]; finish_targs e rec Hrec targs.
+  - rewrite Hu in Ea. cbv zeta in Ea.
+    destruct (assoc (e_pkg_imports e) p) as [n0|] eqn:Eas; cbn [andb];
+      [destruct (String.eqb pn "") eqn:En|]; cbv beta iota;
+      rewrite !tie_unusedName, Hsh; fold (taken_names e st);
+      match type of Ea with context [String.eqb (unused_name ?T ?A) ?A] =>
+        destruct (String.eqb (unused_name T A) A) eqn:Eq end;
+      cbn [negb]; try (apply String.eqb_eq in Eq; rewrite Eq in * );
+      injection Ea as <- <-; cbv beta iota; cbn [i_alias i_path];
+      rewrite !tmap_set_tset_key by reflexivity;
+      match goal with |- context [String.eqb ?A "."] => destruct (String.eqb A ".") eqn:Ed end; cbn [negb];
+      finish_targs e rec Hrec targs.
+Qed.
+
+(* ------------------------------------------------------------------ ExtractTypeRef *)
+
+
+Definition ty_children (t : ty) : list ty :=
+  match t with
+  | TPtr x | TSlice x | TArray _ x => [x]
+  | TMap k v => [k; v]
+  | TNamed _ _ targs => targs
+  | _ => []
+  end.
+
+(* one unfolding of ExtractTypeRef: every case of the type switch renders what the model's extract
+   + print render, provided the recursive calls do; recm is "MethodFromSignature(ih, t).Signature()" *)
+Lemma tie_ExtractTypeRef : forall e rec recm is_basic st sh t,
+  e_unique_alias e = true -> map i_alias sh = e_shadowed e ->
+  (forall st x, In x (ty_children t) -> rec st x = spec_extract e st x) ->
+  (forall ps v rs, t = TFunc ps v rs -> forall st, recm st t = spec_extract e st t) ->
+  (forall s, t = TBasic s -> prefix "untyped " s = false) ->
+  gen_ExtractTypeRef rec recm is_basic st sh (e_self e) (e_pkg_imports e) (e_locals e) t
+  = spec_extract e st t.
+Proof.
+  intros e rec recm is_basic st sh t Hu Hsh Hrec Hrecm Hbasic.
+  unfold gen_ExtractTypeRef. unfold_gen_helpers. unfold_world. cbv zeta.
+  destruct t as [s|pkg n targs|x|x|n x|k v|ps v rs]; cbn [ty_children] in Hrec.
+  - specialize (Hbasic s eq_refl). unfold spec_extract. cbn [extract print]. unfold trim_prefix. rewrite Hbasic.
+    destruct (is_basic s); reflexivity.
+  - rewrite (tie_addNamed e rec st sh pkg n targs Hu Hsh Hrec).
+    destruct (spec_extract e st (TNamed pkg n targs)). reflexivity.
+  - rewrite Hrec by (left; reflexivity). unfold spec_extract. cbn [extract].
+    destruct (extract e st x) as [r s1]. reflexivity.
+  - rewrite Hrec by (left; reflexivity). unfold spec_extract. cbn [extract].
+    destruct (extract e st x) as [r s1]. reflexivity.
+  - rewrite Hrec by (left; reflexivity). unfold spec_extract. cbn [extract].
+    destruct (extract e st x) as [r s1]. cbn [print]. unfold fmt_int.
+    repeat rewrite app_assoc_s. reflexivity.
+  - rewrite Hrec by (left; reflexivity). unfold spec_extract. cbn [extract].
+    destruct (extract e st k) as [rk s1]. cbv beta iota.
+    rewrite Hrec by (right; left; reflexivity). unfold spec_extract.
+    destruct (extract e s1 v) as [rv s2]. cbn [print]. repeat rewrite app_assoc_s. reflexivity.
+  - rewrite (Hrecm ps v rs eq_refl). destruct (spec_extract e st (TFunc ps v rs)). reflexivity.
+Qed.
+
+(* ------------------------------------------------------------------ TypeNames / Declarations / Signature *)
+Definition gp_triple (g : gparam) : string * bool * string := (gp_name g, gp_variadic g, gp_typeref g).
+
+(* a strings.Builder loop that writes an item per element and ", " between elements = join *)
+Lemma join_fold (item : gparam -> string) (F : string -> nat -> gparam -> string) n :
+  (forall acc i p, F acc i p = acc ++ item p ++ (if Nat.ltb (i + 1) n then ", " else "")) ->
+  forall l i acc, i + List.length l = n ->
+  list_fold_from F i l acc = acc ++ join ", " (map item l).
+Proof.
+  intros HF. induction l as [|x r IH]; intros i acc Hn; cbn [list_fold_from map join].
+  - symmetry. apply append_nil_r.
+  - rewrite HF. cbn [List.length] in Hn. destruct r as [|y r'].
+    + cbn [List.length] in Hn. replace (Nat.ltb (i + 1) n) with false by (symmetry; apply Nat.ltb_ge; lia).
+      cbn [list_fold_from]. rewrite append_nil_r. reflexivity.
+    + replace (Nat.ltb (i + 1) n) with true by (symmetry; apply Nat.ltb_lt; cbn [List.length] in Hn; lia).
+      rewrite IH by (cbn [List.length] in *; lia).
+      cbn [map]. repeat rewrite app_assoc_s. reflexivity.
+Qed.
+
+Ltac join_side :=
+  intros acc i p; cbv beta zeta;
+  destruct (gp_variadic p); destruct (Nat.ltb (i + 1) _);
+  repeat rewrite app_assoc_s; cbn [append]; rewrite ?append_nil_r; reflexivity.
+
+Lemma tie_TypeNames : forall l, gen_TypeNames l = type_names (map gp_triple l).
+Proof.
+  intros l. unfold gen_TypeNames, type_names, list_fold. unfold_gen_helpers. cbv zeta.
+  rewrite (join_fold (fun p => (if gp_variadic p then "[]" else "") ++ gp_typeref p) _ (List.length l));
+    [|join_side|reflexivity].
+  rewrite map_map. reflexivity.
+Qed.
+
+Lemma tie_Declarations : forall l, gen_Declarations l = declarations (map gp_triple l).
+Proof.
+  intros l. unfold gen_Declarations, declarations, list_fold. unfold_gen_helpers. cbv zeta.
+  rewrite (join_fold (fun p => gp_name p ++ (if gp_variadic p then "..." else "") ++ " " ++ gp_typeref p) _ (List.length l));
+    [|join_side|reflexivity].
+  rewrite map_map. reflexivity.
+Qed.
+
+Lemma tie_Signature : forall name ins outs,
+  gen_Signature name ins outs = sig_text name (map gp_triple ins) (map gp_triple outs).
+Proof.
+  intros name ins outs. unfold gen_Signature, sig_text. unfold_gen_helpers. cbv zeta.
+  rewrite !tie_Declarations, !tie_TypeNames, map_length.
+  destruct (Nat.ltb 1 (List.length outs)); repeat rewrite app_assoc_s; reflexivity.
+Qed.
+
+(* ------------------------------------------------------------------ ParamsFromSignatureTuple *)
+Definition gp_of (q : (pinfo * ty) * (bool * texpr)) : gparam :=
+  GP (pi_name (fst (fst q))) (fst (snd q)) (print (snd (snd q))) (pi_ctx (fst (fst q))) (pi_err (fst (fst q))).
+Definition pfst_spec (e : env) (st : table) (variadic : bool) (tuple : list (pinfo * ty)) : list gparam * table :=
+  let '(xs, st') := params_from_tuple e st variadic tuple in (map gp_of (combine tuple xs), st').
+
+Lemma substring_all : forall s, substring 0 (String.length s) s = s.
+Proof. induction s as [|c s IH]; simpl; [reflexivity|]. rewrite IH. reflexivity. Qed.
+
+Lemma trim_slice_print x : trim_prefix "[]" (print (ESlice x)) = print x.
+Proof.
+  cbn [print]. unfold trim_prefix. simpl. rewrite Nat.sub_0_r.
+  destruct (print x); simpl; [reflexivity|]. rewrite substring_all. reflexivity.
+Qed.
+
+(* the second rendering of the type arguments (Param.TypeArgNames) leaves the table alone *)
+Lemma fold_again e (G : table -> nat -> ty -> table) : forall l st i,
+  (forall s j x, In x l -> G s j x = snd (extract e s x)) ->
+  (forall x, In x l -> covers e st x) ->
+  list_fold_from G i l st = st.
+Proof.
+  induction l as [|x r IH]; intros st i HG Hc; cbn [list_fold_from]; [reflexivity|].
+  rewrite HG by (left; reflexivity). rewrite (extract_idem e x st) by (apply Hc; left; reflexivity).
+  apply IH; [intros s j y Hy; apply HG; right; assumption|intros y Hy; apply Hc; right; assumption].
+Qed.
+
+Lemma pkgs_ptr_targs t x : In x (ty_named_targs (if ty_is_ptr t then ty_ptr_elem t else t)) ->
+  forall pp, In pp (ty_pkgs x) -> In pp (ty_pkgs t).
+Proof.
+  intros Hx pp Hpp. destruct t as [s|pkg n targs|y|y|k y|k v|ps v rs]; cbn in Hx; try contradiction.
+  - simpl. apply in_or_app. right. apply in_flat_map. eauto.
+  - destruct y as [s|pkg n targs|z|z|k z|k v|ps v rs]; cbn in Hx; try contradiction.
+    simpl. apply in_or_app. right. apply in_flat_map. eauto.
+Qed.
+
+Lemma pfst_fold e variadic n (F : table * list gparam -> nat -> pinfo * ty -> table * list gparam) whole :
+  (forall st acc i p, In p whole -> F (st, acc) i p =
+     let '(x, st1) := extract e st (snd p) in
+     let isv := Nat.eqb n (i + 1) && variadic in
+     (st1, (acc ++ [GP (pi_name (fst p)) isv (if isv then trim_prefix "[]" (print x) else print x)
+                       (pi_ctx (fst p)) (pi_err (fst p))])%list)) ->
+  forall l i st acc, (forall p, In p l -> In p whole) -> i + List.length l = n ->
+    (variadic = true -> forall l0 pi t, l = (l0 ++ [(pi, t)])%list -> exists y, t = TSlice y) ->
+    list_fold_from F i l (st, acc) =
+    let '(xs, st') := params_from_tuple e st variadic l in (st', (acc ++ map gp_of (combine l xs))%list).
+Proof.
+  intros HF. induction l as [|[pi t] r IH]; intros i st acc Hsub Hn Hv; cbn [list_fold_from params_from_tuple].
+  - rewrite app_nil_r. reflexivity.
+  - rewrite HF by (apply Hsub; left; reflexivity). cbn [fst snd]. destruct (extract e st t) as [x s1] eqn:Ex. cbv zeta.
+    cbn [List.length] in Hn.
+    assert (Hlast : Nat.eqb n (i + 1) = match r with [] => true | _ => false end).
+    { destruct r; cbn [List.length] in Hn; [apply Nat.eqb_eq; lia|apply Nat.eqb_neq; lia]. }
+    rewrite Hlast. rewrite (andb_comm _ variadic).
+    rewrite IH; [|intros p Hp; apply Hsub; right; assumption| lia |].
+    2:{ intros Hvt l0 pi0 t0 E. apply (Hv Hvt ((pi, t) :: l0) pi0 t0). rewrite E. reflexivity. }
+    destruct (params_from_tuple e s1 variadic r) as [rr s2].
+    cbn [combine map]. rewrite <- app_assoc. cbn [app]. f_equal. f_equal. f_equal.
+    unfold gp_of. cbn [fst snd].
+    destruct (variadic && match r with [] => true | _ => false end) eqn:Ev; [|reflexivity].
+    apply andb_true_iff in Ev as [Hvt Hr]. destruct r; [|discriminate].
+    destruct (Hv Hvt [] pi t eq_refl) as [y ->]. cbn [extract] in Ex.
+    destruct (extract e st y) as [ry sy]. injection Ex as <- <-. cbn [trim_slice].
+    rewrite trim_slice_print. reflexivity.
+Qed.
+
+(* the types ParamsFromSignatureTuple hands to ExtractTypeRef: the parameter types and, for a
+   (pointer to a) generic named type, its type arguments *)
+Definition pfst_types (tuple : list (pinfo * ty)) : list ty :=
+  flat_map (fun p : pinfo * ty =>
+              snd p :: ty_named_targs (if ty_is_ptr (snd p) then ty_ptr_elem (snd p) else snd p)) tuple.
+
+Lemma tie_ParamsFromSignatureTuple : forall e rec recm isb st sh tuple variadic,
+  (forall s t, In t (pfst_types tuple) ->
+     gen_ExtractTypeRef rec recm isb s sh (e_self e) (e_pkg_imports e) (e_locals e) t = spec_extract e s t) ->
+  (variadic = true -> exists l0 pi x, tuple = (l0 ++ [(pi, TSlice x)])%list) ->
+  gen_ParamsFromSignatureTuple rec recm isb st sh (e_self e) (e_pkg_imports e) (e_locals e) tuple variadic
+  = pfst_spec e st variadic tuple.
+Proof.
+  intros e rec recm isb st sh tuple variadic HX Hwf.
+  unfold gen_ParamsFromSignatureTuple, pfst_spec, list_fold. unfold_gen_helpers. cbv zeta.
+  rewrite (pfst_fold e variadic (List.length tuple) _ tuple).
+  - destruct (params_from_tuple e st variadic tuple) as [xs st']. reflexivity.
+  - intros s0 acc i [pi t] Hin. cbv beta iota zeta. cbn [fst snd].
+    assert (Ht : In t (pfst_types tuple)).
+    { unfold pfst_types. apply in_flat_map. exists (pi, t). split; [assumption|left; reflexivity]. }
+    assert (Hy : forall y, In y (ty_named_targs (if ty_is_ptr t then ty_ptr_elem t else t)) -> In y (pfst_types tuple)).
+    { intros y Hy. unfold pfst_types. apply in_flat_map. exists (pi, t). split; [assumption|right; exact Hy]. }
+    rewrite (HX _ _ Ht). unfold spec_extract.
+    pose proof (extract_covered e t s0) as Hcov.
+    destruct (extract e s0 t) as [x s1]. cbn [snd] in Hcov.
+    assert (H2 : forall G : table -> nat -> ty -> table,
+              (forall s j y, In y (ty_named_targs (if ty_is_ptr t then ty_ptr_elem t else t)) -> G s j y = snd (extract e s y)) ->
+              list_fold_from G 0 (ty_named_targs (if ty_is_ptr t then ty_ptr_elem t else t)) s1 = s1).
+    { intros G HG. apply (fold_again e); [intros; apply HG; assumption|].
+      intros y Hy0 pp Hpp. apply Hcov. eapply pkgs_ptr_targs; eauto. }
+    match goal with |- context [list_fold_from ?G 0 _ s1] => rewrite (H2 G) end.
+    2:{ intros s j y Hy0. rewrite (HX _ _ (Hy y Hy0)). unfold spec_extract. destruct (extract e s y). reflexivity. }
+    destruct (ty_is_named _ && _); cbv beta iota; cbn [gp_variadic gp_typeref gp_with_typeref gp_name gp_ctx gp_err];
+      destruct (Nat.eqb (List.length tuple) (i + 1) && variadic); reflexivity.
+  - auto.
+  - reflexivity.
+  - intros Hv l0 pi t E. destruct (Hwf Hv) as [l1 [pi1 [x E1]]]. rewrite E in E1.
+    apply app_inj_tail in E1 as [_ E2]. injection E2 as _ ->. eauto.
+Qed.
+
+(* ------------------------------------------------------------------ MethodFromSignature *)
+Definition pr3 (p : string * bool * texpr) : string * bool * string := let '(n, v, x) := p in (n, v, print x).
+
+Lemma gp_pinfo_of (ps : list (pinfo * ty)) : forall xs, List.length xs = List.length ps ->
+  map gp_pinfo (map gp_of (combine ps xs)) = map fst ps.
+Proof.
+  induction ps as [|[pi t] r IH]; intros [|[b x] xr] H; simpl in *; try discriminate; [reflexivity|].
+  f_equal; [destruct pi; reflexivity|]. apply IH. lia.
+Qed.
+
+Lemma set_names_zip (ps : list (pinfo * ty)) : forall xs ns,
+  List.length xs = List.length ps -> List.length ns = List.length ps ->
+  map gp_triple (gp_set_names (map gp_of (combine ps xs)) ns) = map pr3 (zip_names ns xs).
+Proof.
+  unfold gp_set_names, zip_names.
+  induction ps as [|[pi t] r IH]; intros [|[b x] xr] [|n nr] H1 H2; simpl in *; try discriminate; [reflexivity|].
+  f_equal. apply IH; lia.
+Qed.
+
+Lemma pft_length e : forall l st v, List.length (fst (params_from_tuple e st v l)) = List.length l.
+Proof.
+  induction l as [|[pi t] r IH]; intros st v; simpl; [reflexivity|].
+  destruct (extract e st t) as [x s1]. specialize (IH s1 v).
+  destruct (params_from_tuple e s1 v r) as [xr s2]. simpl in *. congruence.
+Qed.
+
+(* MethodFromSignature = render_method: the two tuples through ParamsFromSignatureTuple, then the
+   naming functions (tie_ensureParamNames) on the parameters' names and oracle bits *)
+Lemma tie_MethodFromSignature : forall e rec recm isb st sh ps v rs,
+  (forall s t, In t (pfst_types ps ++ pfst_types rs) ->
+     gen_ExtractTypeRef rec recm isb s sh (e_self e) (e_pkg_imports e) (e_locals e) t = spec_extract e s t) ->
+  (v = true -> exists l0 pi x, ps = (l0 ++ [(pi, TSlice x)])%list) ->
+  let '((nm, gi, go), st') :=
+    gen_MethodFromSignature rec recm isb st sh (e_self e) (e_pkg_imports e) (e_locals e) ps v rs in
+  let '(m, st'') := render_method e st (M "func" ps v rs false) in
+  nm = rm_name m /\ map gp_triple gi = map pr3 (rm_in m) /\ map gp_triple go = map pr3 (rm_out m) /\ st' = st''.
+Proof.
+  intros e rec recm isb st sh ps v rs HX Hwf.
+  unfold gen_MethodFromSignature. unfold_gen_helpers. cbv zeta.
+  assert (HX1 : forall s t, In t (pfst_types ps) ->
+            gen_ExtractTypeRef rec recm isb s sh (e_self e) (e_pkg_imports e) (e_locals e) t = spec_extract e s t)
+    by (intros s t Ht; apply HX; apply in_or_app; auto).
+  assert (HX2 : forall s t, In t (pfst_types rs) ->
+            gen_ExtractTypeRef rec recm isb s sh (e_self e) (e_pkg_imports e) (e_locals e) t = spec_extract e s t)
+    by (intros s t Ht; apply HX; apply in_or_app; auto).
+  rewrite (tie_ParamsFromSignatureTuple e rec recm isb st sh ps v HX1 Hwf). unfold pfst_spec, render_method.
+  cbn [m_ps m_rs m_variadic m_name].
+  pose proof (pft_length e ps st v) as L1.
+  destruct (params_from_tuple e st v ps) as [xi s1]. cbn [fst] in L1. cbv beta iota.
+  rewrite (tie_ParamsFromSignatureTuple e rec recm isb s1 sh rs false HX2) by discriminate. unfold pfst_spec.
+  pose proof (pft_length e rs s1 false) as L2.
+  destruct (params_from_tuple e s1 false rs) as [xo s2]. cbn [fst] in L2. cbv beta iota.
+  rewrite (gp_pinfo_of ps xi L1), (gp_pinfo_of rs xo L2), tie_ensureParamNames.
+  destruct (ensure_param_names_length (map fst ps) (map fst rs)) as [N1 N2]. rewrite !map_length in N1, N2.
+  destruct (ensure_param_names (map fst ps) (map fst rs)) as [ni no]. cbn [fst snd] in N1, N2. cbv beta iota.
+  cbn [rm_name rm_in rm_out].
+  rewrite (set_names_zip ps xi ni L1 N1), (set_names_zip rs xo no L2 N2). repeat split; reflexivity.
+Qed.
+
+(* with tie_Signature: MethodFromSignature(ih, t).Signature() is the text of the func type *)
+Theorem tie_func_text : forall e rec recm isb st sh ps v rs,
+  (forall s t, In t (pfst_types ps ++ pfst_types rs) ->
+     gen_ExtractTypeRef rec recm isb s sh (e_self e) (e_pkg_imports e) (e_locals e) t = spec_extract e s t) ->
+  (v = true -> exists l0 pi x, ps = (l0 ++ [(pi, TSlice x)])%list) ->
+  let '((nm, gi, go), st') :=
+    gen_MethodFromSignature rec recm isb st sh (e_self e) (e_pkg_imports e) (e_locals e) ps v rs in
+  (gen_Signature nm gi go, st') = spec_extract e st (TFunc ps v rs).
+Proof.
+  intros e rec recm isb st sh ps v rs HX Hwf.
+  pose proof (tie_MethodFromSignature e rec recm isb st sh ps v rs HX Hwf) as H.
+  destruct (gen_MethodFromSignature rec recm isb st sh (e_self e) (e_pkg_imports e) (e_locals e) ps v rs) as [[[nm gi] go] st'].
+  unfold spec_extract. rewrite extract_func. unfold render_method in H. cbn [m_ps m_rs m_variadic m_name] in H.
+  destruct (params_from_tuple e st v ps) as [xi s1].
+  destruct (params_from_tuple e s1 false rs) as [xo s2].
+  destruct (ensure_param_names (map fst ps) (map fst rs)) as [ni no].
+  destruct H as [-> [Hi [Ho ->]]]. rewrite tie_Signature, Hi, Ho. cbn [rm_name rm_in rm_out print]. reflexivity.
+Qed.
+
+(* ------------------------------------------------------------------ tying the knot *)
+(* ExtractTypeRef, addNamed, ParamsFromSignatureTuple and MethodFromSignature call each other; each
+   was translated with the functions it reaches recursively as parameters.  Here the parameters
+   are instantiated with the translated functions themselves, by recursion on a fuel that the
+   size of the type bounds: the Go functions, as translated, ARE the model's extract + print. *)
+Fixpoint ty_size (t : ty) : nat :=
+  match t with
+  | TBasic _ => 1
+  | TNamed _ _ l => S (fold_right (fun x a => ty_size x + a) 0 l)
+  | TPtr x | TSlice x | TArray _ x => S (ty_size x)
+  | TMap k v => S (ty_size k + ty_size v)
+  | TFunc ps _ rs => S (fold_right (fun (p : pinfo * ty) a => ty_size (snd p) + a) 0 ps +
+                        fold_right (fun (p : pinfo * ty) a => ty_size (snd p) + a) 0 rs)
+  end.
+
+(* what go/types hands over: no untyped kinds, a variadic tuple ends in a slice *)
+Inductive ty_ok : ty -> Prop :=
+| OKBasic s : prefix "untyped " s = false -> ty_ok (TBasic s)
+| OKNamed pkg n l : Forall ty_ok l -> ty_ok (TNamed pkg n l)
+| OKPtr x : ty_ok x -> ty_ok (TPtr x)
+| OKSlice x : ty_ok x -> ty_ok (TSlice x)
+| OKArray n x : ty_ok x -> ty_ok (TArray n x)
+| OKMap k v : ty_ok k -> ty_ok v -> ty_ok (TMap k v)
+| OKFunc ps v rs :
+    Forall (fun p : pinfo * ty => ty_ok (snd p)) ps -> Forall (fun p : pinfo * ty => ty_ok (snd p)) rs ->
+    (v = true -> exists l0 pi x, ps = (l0 ++ [(pi, TSlice x)])%list) -> ty_ok (TFunc ps v rs).
+
+Lemma size_in (l : list ty) x : In x l -> ty_size x <= fold_right (fun y a => ty_size y + a) 0 l.
+Proof.
+  induction l as [|a r IH]; cbn [In fold_right]; [contradiction|]. intros [E|H]; [subst a; lia|]. specialize (IH H). lia.
+Qed.
+Lemma size_in_p (l : list (pinfo * ty)) p : In p l ->
+  ty_size (snd p) <= fold_right (fun (q : pinfo * ty) a => ty_size (snd q) + a) 0 l.
+Proof.
+  induction l as [|a r IH]; cbn [In fold_right]; [contradiction|]. intros [E|H]; [subst a; lia|]. specialize (IH H). lia.
+Qed.
+
+Lemma children_size t x : In x (ty_children t) -> ty_size x < ty_size t.
+Proof.
+  destruct t as [s|pkg n l|y|y|n y|k v|ps v rs]; cbn [ty_children ty_size]; try contradiction.
+  - intros H. pose proof (size_in l x H). lia.
+  - intros [<-|[]]. lia.
+  - intros [<-|[]]. lia.
+  - intros [<-|[]]. lia.
+  - intros [<-|[<-|[]]]; lia.
+Qed.
+Lemma children_ok t x : ty_ok t -> In x (ty_children t) -> ty_ok x.
+Proof.
+  intros H Hx. destruct H as [s Hs|pkg n l Hl|y Hy|y Hy|n y Hy|k v Hk Hv|ps v rs Hp Hr Hv]; cbn [ty_children] in Hx;
+    try contradiction.
+  - rewrite Forall_forall in Hl. auto.
+  - destruct Hx as [<-|[]]. assumption.
+  - destruct Hx as [<-|[]]. assumption.
+  - destruct Hx as [<-|[]]. assumption.
+  - destruct Hx as [<-|[<-|[]]]; assumption.
+Qed.
+
+Lemma strip_size t x : In x (ty_named_targs (if ty_is_ptr t then ty_ptr_elem t else t)) -> ty_size x < ty_size t.
+Proof.
+  destruct t as [s|pkg n l|y|y|n y|k v|ps v rs]; cbn; try contradiction.
+  - intros H. pose proof (size_in l x H). lia.
+  - destruct y as [s|pkg n l|z|z|n z|k v|ps v rs]; cbn; try contradiction.
+    intros H. pose proof (size_in l x H). lia.
+Qed.
+Lemma strip_ok t x : ty_ok t -> In x (ty_named_targs (if ty_is_ptr t then ty_ptr_elem t else t)) -> ty_ok x.
+Proof.
+  intros H. destruct t as [s|pkg n l|y|y|n y|k v|ps v rs]; cbn; try contradiction.
+  - inversion H as [|? ? ? Hl| | | | |]; subst. rewrite Forall_forall in Hl. auto.
+  - inversion H as [| |? Hy| | | |]; subst. destruct y as [s|pkg n l|z|z|n z|k v|ps v rs]; cbn; try contradiction.
+    inversion Hy as [|? ? ? Hl| | | | |]; subst. rewrite Forall_forall in Hl. auto.
+Qed.
+
+Lemma pfst_types_in (l : list (pinfo * ty)) t : Forall (fun p : pinfo * ty => ty_ok (snd p)) l -> In t (pfst_types l) ->
+  ty_ok t /\ ty_size t <= fold_right (fun (q : pinfo * ty) a => ty_size (snd q) + a) 0 l.
+Proof.
+  intros Hok Ht. unfold pfst_types in Ht. apply in_flat_map in Ht as [p [Hp Ht]].
+  rewrite Forall_forall in Hok. pose proof (Hok p Hp) as Hpo. pose proof (size_in_p l p Hp) as Hs.
+  destruct Ht as [<-|Ht]; [auto|]. split; [eapply strip_ok; eauto|]. pose proof (strip_size _ _ Ht). lia.
+Qed.
+
+Section Knot.
+  Variable e : env.
+  Variable sh : list imp.
+  Variable isb : string -> bool.
+  Hypothesis Hu : e_unique_alias e = true.
+  Hypothesis Hsh : map i_alias sh = e_shadowed e.
+
+  Definition text_of_func (r rm : table -> ty -> string * table) (st : table) (t : ty) : string * table :=
+    match t with
+    | TFunc ps v rs =>
+        let '((nm, gi, go), st') :=
+          gen_MethodFromSignature r rm isb st sh (e_self e) (e_pkg_imports e) (e_locals e) ps v rs in
+        (gen_Signature nm gi go, st')
+    | _ => (EmptyString, st)
+    end.
+
+  Fixpoint knot (k : nat) : (table -> ty -> string * table) * (table -> ty -> string * table) :=
+    match k with
+    | O => (fun st _ => (EmptyString, st), fun st _ => (EmptyString, st))
+    | S j =>
+        let rm' := text_of_func (fst (knot j)) (snd (knot j)) in
+        (fun st t => gen_ExtractTypeRef (fst (knot j)) rm' isb st sh (e_self e) (e_pkg_imports e) (e_locals e) t, rm')
+    end.
+
+  Theorem knot_ok : forall k,
+    (forall t, ty_size t < k -> ty_ok t -> forall st, fst (knot k) st t = spec_extract e st t) /\
+    (forall ps v rs, ty_size (TFunc ps v rs) <= k -> ty_ok (TFunc ps v rs) ->
+       forall st, snd (knot k) st (TFunc ps v rs) = spec_extract e st (TFunc ps v rs)).
+  Proof.
+    induction k as [|j [IHa IHb]].
+    - split; [intros t H; lia|intros ps v rs H; cbn [ty_size] in H; lia].
+    - assert (B : forall ps v rs, ty_size (TFunc ps v rs) <= S j -> ty_ok (TFunc ps v rs) ->
+                forall st, snd (knot (S j)) st (TFunc ps v rs) = spec_extract e st (TFunc ps v rs)).
+      { intros ps v rs Hs Hok st. cbn [knot snd]. unfold text_of_func.
+        inversion Hok as [| | | | | |? ? ? Hp Hr Hv]; subst.
+        pose proof (tie_func_text e (fst (knot j)) (snd (knot j)) isb st sh ps v rs) as T.
+        destruct (gen_MethodFromSignature (fst (knot j)) (snd (knot j)) isb st sh (e_self e) (e_pkg_imports e) (e_locals e) ps v rs)
+          as [[[nm gi] go] st'].
+        apply T; [|exact Hv].
+        intros s t Ht. cbn [ty_size] in Hs.
+        assert (Ht' : ty_ok t /\ ty_size t <= j).
+        { apply in_app_or in Ht as [Ht|Ht].
+          - destruct (pfst_types_in ps t Hp Ht) as [H1 H2]. split; [assumption|lia].
+          - destruct (pfst_types_in rs t Hr Ht) as [H1 H2]. split; [assumption|lia]. }
+        destruct Ht' as [Hto Hts].
+        apply tie_ExtractTypeRef; [exact Hu|exact Hsh| | |].
+        + intros s0 x Hx. apply IHa; [pose proof (children_size t x Hx); lia|eapply children_ok; eauto].
+        + intros ps0 v0 rs0 -> s0. apply IHb; [assumption|assumption].
+        + intros s0 ->. inversion Hto; assumption. }
+      split; [|exact B].
+      intros t Hs Hok st. cbn [knot fst].
+      apply tie_ExtractTypeRef; [exact Hu|exact Hsh| | |].
+      + intros s0 x Hx. apply IHa; [pose proof (children_size t x Hx); lia|eapply children_ok; eauto].
+      + intros ps v rs -> s0. apply (B ps v rs); [lia|assumption].
+      + intros s0 ->. inversion Hok; assumption.
+  Qed.
+
+  (* the translated ExtractTypeRef (with addNamed, unusedName, ParamsFromSignatureTuple,
+     MethodFromSignature, the naming functions, Declarations/TypeNames/Signature below it),
+     unfolded as deep as the type is large, renders every type as the model does and leaves the
+     same import table *)
+  Theorem tie_extract : forall t, ty_ok t -> forall st,
+    fst (knot (S (ty_size t))) st t = spec_extract e st t.
+  Proof. intros t Hok st. apply (proj1 (knot_ok (S (ty_size t)))); [lia|assumption]. Qed.
+End Knot.
+
+(* ------------------------------------------------------------------ the loop over the declared methods *)
+Definition gm_triple (g : string * list gparam * list gparam) :=
+  let '(n, i, o) := g in (n, map gp_triple i, map gp_triple o).
+Definition gm_of (m : rmeth) := (rm_name m, map pr3 (rm_in m), map pr3 (rm_out m)).
+
+Lemma visible_filter priv own :
+  filter (visible priv) own = filter (fun m => priv || exported (m_name m)) (filter is_meth own).
+Proof.
+  induction own as [|m r IH]; simpl; [reflexivity|]. unfold visible at 1.
+  destruct (is_meth m); simpl; [|exact IH]. destruct (priv || exported (m_name m)); simpl; rewrite IH; reflexivity.
+Qed.
+
+(* a fold that, for the listed methods, renders the method and appends it = render_methods *)
+Lemma own_fold e priv (F : table * list (string * list gparam * list gparam) -> nat -> meth ->
+                          table * list (string * list gparam * list gparam)) whole :
+  (forall st acc i m, In m whole ->
+     map gm_triple (snd (F (st, acc) i m)) =
+       (if priv || exported (m_name m)
+        then map gm_triple acc ++ [gm_of (fst (render_method e st m))]
+        else map gm_triple acc)%list /\
+     fst (F (st, acc) i m) = if priv || exported (m_name m) then snd (render_method e st m) else st) ->
+  forall l i st acc, (forall m, In m l -> In m whole) ->
+    let r := list_fold_from F i l (st, acc) in
+    let '(rs, st') := render_methods e st (filter (fun m => priv || exported (m_name m)) l) in
+    map gm_triple (snd r) = (map gm_triple acc ++ map gm_of rs)%list /\ fst r = st'.
+Proof.
+  intros HF. induction l as [|m r IH]; intros i st acc Hsub; cbn [list_fold_from filter render_methods].
+  - cbv zeta. rewrite app_nil_r. split; reflexivity.
+  - destruct (HF st acc i m (Hsub m (or_introl eq_refl))) as [H1 H2].
+    destruct (F (st, acc) i m) as [s1 a1] eqn:EF. cbn [fst snd] in H1, H2.
+    specialize (IH (S i) s1 a1 (fun x Hx => Hsub x (or_intror Hx))). cbv zeta in IH |- *.
+    destruct (priv || exported (m_name m)) eqn:Ev; cbn [render_methods].
+    + destruct (render_method e st m) as [x sx]. cbn [fst snd] in H1, H2. subst s1.
+      destruct (render_methods e sx (filter (fun m0 => priv || exported (m_name m0)) r)) as [xs s2].
+      destruct IH as [I1 I2]. split; [|exact I2]. rewrite I1, H1. cbn [map]. rewrite <- app_assoc. reflexivity.
+    + subst s1. destruct (render_methods e st (filter (fun m0 => priv || exported (m_name m0)) r)) as [xs s2].
+      destruct IH as [I1 I2]. split; [|exact I2]. rewrite I1, H1. reflexivity.
+Qed.
+
+Lemma tie_own_methods : forall e rec recm isb sh hasPkg priv embedded pi ps psc tpkg tname ttargs own st acc,
+  (forall m s t, In m (filter is_meth own) -> In t (pfst_types (m_ps m) ++ pfst_types (m_rs m)) ->
+     gen_ExtractTypeRef rec recm isb s sh (e_self e) (e_pkg_imports e) (e_locals e) t = spec_extract e s t) ->
+  (forall m, In m (filter is_meth own) -> m_variadic m = true -> exists l0 p x, m_ps m = (l0 ++ [(p, TSlice x)])%list) ->
+  let '(gms, st') := gen_own_methods rec recm isb hasPkg st sh (e_self e) (e_pkg_imports e) (e_locals e)
+                       (filter is_meth own) priv embedded pi ps psc acc tpkg tname ttargs in
+  let '(rs, st'') := render_methods e st (filter (visible priv) own) in
+  map gm_triple gms = (map gm_triple acc ++ map gm_of rs)%list /\ st' = st''.
+Proof.
+  intros e rec recm isb sh hasPkg priv embedded pi ps psc tpkg tname ttargs own st acc HX Hv.
+  unfold gen_own_methods, list_fold. unfold_gen_helpers. cbv zeta. rewrite visible_filter.
+  match goal with |- context [list_fold_from ?F 0 ?l (st, acc)] =>
+    pose proof (own_fold e priv F (filter is_meth own)) as HO end.
+  match type of HO with ?A -> _ => assert (HA : A) end.
+  { intros s0 a0 i m Hm. cbv beta iota zeta. unfold_gen_helpers. cbv beta iota zeta.
+    pose proof (tie_MethodFromSignature e rec recm isb s0 sh (m_ps m) (m_variadic m) (m_rs m)
+                  (fun s t Ht => HX m s t Hm Ht) (Hv m Hm)) as T.
+    destruct (gen_MethodFromSignature rec recm isb s0 sh (e_self e) (e_pkg_imports e) (e_locals e)
+                (m_ps m) (m_variadic m) (m_rs m)) as [[[nm gi] go] st1].
+    assert (R : render_method e s0 m =
+                let '(x, s1) := render_method e s0 (M "func" (m_ps m) (m_variadic m) (m_rs m) false) in
+                (RM (m_name m) (rm_in x) (rm_out x), s1)).
+    { unfold render_method. cbn [m_ps m_rs m_variadic m_name].
+      destruct (params_from_tuple e s0 (m_variadic m) (m_ps m)) as [xi t1].
+      destruct (params_from_tuple e t1 false (m_rs m)) as [xo t2].
+      destruct (ensure_param_names (map fst (m_ps m)) (map fst (m_rs m))). reflexivity. }
+    rewrite R. destruct (render_method e s0 (M "func" (m_ps m) (m_variadic m) (m_rs m) false)) as [x s1].
+    destruct T as [_ [Hi [Ho ->]]].
+    destruct priv; destruct (exported (m_name m)); cbn [negb andb orb]; cbv beta iota;
+      destruct hasPkg; cbn [fst snd];
+      (split; [rewrite ?map_app; cbn [map gm_triple gm_of rm_name rm_in rm_out]; rewrite ?Hi, ?Ho; reflexivity|reflexivity]). }
+  specialize (HO HA (filter is_meth own) 0 st acc (fun m H => H)). cbv zeta in HO.
+  match goal with |- context [list_fold_from ?F 0 ?l (st, acc)] => destruct (list_fold_from F 0 l (st, acc)) as [s1 a1] end.
+  destruct (render_methods e st (filter (fun m => priv || exported (m_name m)) (filter is_meth own))) as [rs st2].
+  cbn [fst snd] in HO. destruct HO as [H1 H2]. split; assumption.
+Qed.
+
 Print Assumptions tie_final_names.
+Print Assumptions tie_own_methods.
+Print Assumptions tie_extract.
+Print Assumptions tie_func_text.
+Print Assumptions tie_Signature.
+Print Assumptions tie_calcImports.
+Print Assumptions tie_unusedName.
+Print Assumptions tie_addNamed.
+Print Assumptions tie_ExtractTypeRef.
 Print Assumptions tie_ImportString.
 Print Assumptions tie_merge.
 Print Assumptions tie_visible.
